@@ -706,7 +706,7 @@ pub fn gen_c04(ctx: &Ctx, run: u64) -> ScenarioB {
                 }
                 // sometimes the "twin" of the previous position: same placement and side to move,
                 // fewer castling rights (positions that differ only in their rights share the tables)
-                let prev_has_rights = steps.last().map(|p: &SearchStep| p.fen.split_whitespace().nth(2).map(|r| r != "-").unwrap_or(false) && p.moves.len() < 12).unwrap_or(false);
+                let prev_has_rights = steps.last().map(|p: &SearchStep| (p.fen.split_whitespace().nth(2).map(|r| r != "-").unwrap_or(false) || p.fen.split_whitespace().nth(3).map(|r| r != "-").unwrap_or(false)) && p.moves.len() < 12).unwrap_or(false);
                 if rng.chance(if prev_has_rights { 40 } else { 10 }, 100) {
                     if let Some(prev) = steps.last() {
                         if let Some(twin) = twin_with_fewer_rights(prev, &mut rng) {
@@ -765,8 +765,13 @@ fn twin_with_fewer_rights(prev: &SearchStep, rng: &mut Rng) -> Option<String> {
     let g = super::oracle::build_position(Some(&prev.fen), &prev.moves).ok()?;
     let fen = g.to_fen();
     let mut f: Vec<String> = fen.split_whitespace().map(|s| s.to_string()).collect();
-    if f.len() < 4 || f[2] == "-" {
+    if f.len() < 4 || (f[2] == "-" && f[3] == "-") {
         return None;
+    }
+    // an en-passant right can be the only difference too
+    if f[3] != "-" && rng.chance(1, 2) {
+        f[3] = "-".to_string();
+        return Some(f.join(" "));
     }
     // all rights gone in half of the twins, a random subset otherwise
     let drop_all = rng.chance(1, 2);
@@ -1497,6 +1502,18 @@ pub fn gen_c14(ctx: &Ctx, run: u64) -> ScenarioA {
         knobs.tau_ps = gen_tau(&mut rng);
         let mut n_search = 0;
         let mut min_r = u64::MAX;
+        // rarely: the timed search is the 255th..257th of a long session on a large table (work that
+        // only happens every 256 searches must not come out of that search's clock)
+        if rng.chance(1, 40) {
+            script.push(Intent::SetOption { name: "Hash".into(), value: rng.pick(&["256", "1024"]).to_string() });
+            let (fen, moves) = gen_position(&mut rng, false);
+            script.push(Intent::Position { fen, moves });
+            for _ in 0..rng.range(254, 256) {
+                script.push(Intent::Go(GoSpec::depth(1)));
+                script.push(Intent::WaitBestmove);
+                n_search += 1;
+            }
+        }
         for _ in 0..rng.range(1, 4) {
             // sometimes the GUI changes the table size right after the previous bestmove (the
             // scheduler decides whether the finished search thread has released the tables yet);
